@@ -36,9 +36,12 @@ def T(name, variant, *args, **kw):
     return d
 
 PARTS = {
-  # C09: cmp/eq/neq/lt/gt/le/ge/hash over all ordered pairs (and transitivity over all triples) of 93 type objects:
+  # C09: cmp/eq/neq/lt/gt/le/ge/hash over all ordered pairs (and transitivity over all triples) of 148 type objects:
   # the 71 exported ones plus statically declared and run-time types whose NAMES are prefixes of one another
-  # (E/E1/E10/E100/E1000, Net/NetE/NetError/NetErrorT/NetErrorTimeout, P/Pr/Pri/Print, Typ/Type, In/Int/Int64):
+  # (E/E1/E10/E100/E1000, Net/NetE/NetError/NetErrorT/NetErrorTimeout, P/Pr/Pri/Print, Typ/Type, In/Int/Int64) or agree
+  # for a long time: three statically declared Telemetry_Pipeline_Stage_Ingest_Frame[_Decoder|_Encoder] and 52 run-time
+  # types of length 31/32/33/40/64/100 with the first difference at byte 30/31/32/33/63/64/99, the unmodified prefixes of
+  # those lengths, and two 255-byte names differing in the last byte (148 type objects, 21904 pairs, 3.2e6 triples):
   # antisymmetry, agreement with the order of the names, predicates == cmp, eq => equal hash.
   'C09': {
     'quick': [T('typecmp', 'base', 'mode=typecmp'), T('typecmp-asan', 'asan', 'mode=typecmp', 'count=0')],
